@@ -9,11 +9,18 @@ package main
 //   S   := objType:hex x y w h r rx ry style:hex idx
 //   RES := ids n id^n | xy x y | txt hex | td TD | err msg:hex | hwc H | p P | tp TD P | panic
 // Every look-up prints `RES json` where json = canonical re-tokenisation of ToJSON() after the call.
+//   topo.jsonraw | hex(ToJSON()) same:01          raw bytes of ToJSON(); same = JSONstring() gives the same bytes
+//   topo.alias VIA GETTER args | alias had:01 changed:01 json
+//        VIA := sub | disp | ov; GETTER := type id | resolveA k | resolveAx H | resolveB k | resolveBid id | defid id
+//        the getter is called, then the harness writes through the returned value (Sub[0].X++ / Disp.W++ /
+//        TypeOverride.W++), records whether ToJSON() changed (an observation of aliasing, not a violation), and
+//        undoes the write; json = ToJSON() after the undo.
 
 import (
 	"encoding/hex"
 	"encoding/json"
 	"fmt"
+	"math"
 	"os"
 	"sort"
 	"strconv"
@@ -91,10 +98,8 @@ func canonJSON(text string) string {
 
 // ---------- float32 token: the text encoding/json prints ("0" for zero) ----------
 
+// (negative zero prints as "-0": it is a different value of the field although -0 == 0)
 func rotTok(f float32) string {
-	if f == 0 {
-		return "0"
-	}
 	b, err := json.Marshal(f)
 	if err != nil {
 		return "!nan"
@@ -365,6 +370,63 @@ func (e *topoExec) Exec(cmd string, a []string) string {
 		case "topo.pred":
 			td := decTD(r)
 			res = append([]string{"p"}, encPreds(td)...)
+		case "topo.jsonraw":
+			withJSON = false
+			j := top.ToJSON()
+			res = []string{hx([]byte(j)), b01(top.JSONstring() == j)}
+		case "topo.alias":
+			via, getter := r.next(), r.next()
+			var td *topology.TopologyHWcTypeDef
+			var comp *topology.TopologyHWcomponent
+			switch getter {
+			case "type":
+				td, _ = top.GetHWCtype(r.u32())
+			case "resolveA":
+				if k := r.int(); k >= 0 && k < len(top.HWc) {
+					v := top.GetTypeDefWithOverride(&top.HWc[k])
+					td = &v
+				}
+			case "resolveAx":
+				c := decHWc(r)
+				v := top.GetTypeDefWithOverride(&c)
+				td = &v
+			case "resolveB":
+				k := r.int()
+				guarded(func() { td = top.GetHWCTypeDefinition(k) })
+			case "resolveBid":
+				k := r.int()
+				guarded(func() { td = top.GetHWCTypeDefinitionFromHWCid(k) })
+			case "defid":
+				comp = top.GetHWCDefinitionFromHWCid(r.int())
+			default:
+				panic("unknown getter " + getter)
+			}
+			before := top.ToJSON()
+			var undo func()
+			switch via {
+			case "sub":
+				if td != nil && len(td.Sub) > 0 {
+					td.Sub[0].X++
+					undo = func() { td.Sub[0].X-- }
+				}
+			case "disp":
+				if td != nil && td.Disp != nil {
+					td.Disp.W++
+					undo = func() { td.Disp.W-- }
+				}
+			case "ov":
+				if comp != nil && comp.TypeOverride != nil {
+					comp.TypeOverride.W++
+					undo = func() { comp.TypeOverride.W-- }
+				}
+			default:
+				panic("unknown via " + via)
+			}
+			changed := top.ToJSON() != before
+			if undo != nil {
+				undo()
+			}
+			res = []string{"alias", b01(undo != nil), b01(changed)}
 		case "topo.randomize":
 			seq := r.next() == "1"
 			quietly(func() { top.RandomizeTypes(seq) })
@@ -437,7 +499,7 @@ var inKinds = []string{"b", "b4", "b2h", "b2v", "pb", "p", "gpi", "av", "ah", "a
 	"b4,pb,gpi", "b,a,b", "pb,p,x,y", "gpi,,b", "a,b,c,d", "iv,b,pb", "b2h,b2v,b"}
 var outKinds = []string{"rgb", "mono", "rg", "rgb,x", "RGB"}
 var extKinds = []string{"steps", "pos", "xsteps1", "step", "steps,pos", "pos "}
-var rotations = []float32{90, -90, 45.5, 180, 0.1, 1e-7, 1e21, 270, -0.25, 3}
+var rotations = []float32{90, -90, 45.5, 180, 0.1, 1e-7, 1e21, 270, -0.25, 3, float32(math.Copysign(0, -1))}
 
 func (g *topoGen) text(max int) string {
 	r := g.r
@@ -451,12 +513,16 @@ func (g *topoGen) text(max int) string {
 			sb.WriteString(string(rune(r.Pick(0, 1, 8, 9, 10, 13, 27, 31, 127))))
 		case 2:
 			sb.WriteString(string(rune(r.Pick(0xe6, 0xf8, 0x2028, 0x2029, 0x20ac, 0xfffd, 0x1f600, 0x7ff, 0x800))))
+		case 3:
+			// text that looks like an escape sequence of the JSON / XML text layers (must come back literally)
+			sb.WriteString([]string{`\u0026`, `\u003c`, `\u003e`, `\n`, `\"`, `\\`, `\u2028`, `&amp;`, `&lt;`, `&#34;`, `\u00`}[r.Intn(11)])
 		default:
 			sb.WriteByte(byte(r.Range(32, 126)))
 		}
 	}
 	return sb.String()
 }
+func (g *topoGen) via() string { return []string{"sub", "disp"}[g.r.Intn(2)] }
 func (g *topoGen) smallInt() int {
 	r := g.r
 	switch r.Intn(8) {
@@ -738,9 +804,19 @@ func (g *topoGen) lookups(t *topology.Topology, full bool) {
 	r := g.r
 	q("topo.hwcs")
 	q("topo.withdisp")
+	if full || r.Chance(30) {
+		q("topo.jsonraw")
+	}
 	for _, id := range g.idsToAsk(t) {
 		if !full && r.Chance(60) {
 			continue
+		}
+		if full && r.Chance(50) {
+			// what the getters hand back shares cells with the topology: write through it, look at ToJSON()
+			q("topo.alias", "sub", "type", utoa(id))
+			q("topo.alias", "disp", "type", utoa(id))
+			q("topo.alias", "ov", "defid", strconv.FormatInt(int64(id), 10))
+			q("topo.alias", g.via(), "resolveBid", strconv.FormatInt(int64(id), 10))
 		}
 		q("topo.xy", utoa(id))
 		q("topo.text", utoa(id))
@@ -760,11 +836,19 @@ func (g *topoGen) lookups(t *topology.Topology, full bool) {
 			q("topo.resolveA", k)
 		}
 		q("topo.resolveB", k)
+		if full && r.Chance(40) {
+			if k >= 0 && k < len(t.HWc) {
+				q("topo.alias", g.via(), "resolveA", k)
+			}
+			q("topo.alias", g.via(), "resolveB", k)
+		}
 	}
 	if full {
 		for i := 0; i < 2; i++ {
 			c := g.freeComponent(t)
 			qS("topo.resolveAx", encHWc(&c))
+			// a free-standing component: its own override is not topology storage, the indexed base type is
+			qS("topo.alias", append([]string{g.via(), "resolveAx"}, encHWc(&c)...))
 		}
 		if r.Chance(40) { // int arguments outside the uint32 range wrap around
 			id := int64(r.Range(0, 5))
@@ -830,6 +914,7 @@ func genC14(r *Rng, sessions int, tier string) {
 		t := g.topology(true)
 		g.load(t)
 		q("topo.roundtrip")
+		q("topo.jsonraw") // the raw bytes of ToJSON(): escaping, separators, number literals
 		nops := r.Range(2, 5)
 		for k := 0; k < nops; k++ {
 			switch r.Intn(8) {
